@@ -303,8 +303,16 @@ def check(pid, tier="quick", seed=None, jobs=None, count=None, write_evidence=Tr
                 continue
             n_viol += 1
             case = r.get("case") or mod.generate(r["seed"], tier)
+            if hasattr(mod, "focus"):
+                # restrict the case to the fault point that produced the violation (keeps replay and minimisation cheap)
+                try:
+                    fc = mod.focus(case, v)
+                    if fc is not None and has_violation(execute_case(mod, fc, sc), clause, sig):
+                        case = fc
+                except Exception:
+                    pass
             # minimise the first few signatures fully; further ones get a small budget (their replay file is still verified)
-            budget = int(os.environ.get("VERIF_MIN_BUDGET", 120)) if n_viol <= 3 else 15
+            budget = int(os.environ.get("VERIF_MIN_BUDGET", getattr(mod, "MIN_BUDGET", 120))) if n_viol <= 3 else 15
             mcase, used = minimise(mod, case, clause, sig, sc, budget=budget)
             path = os.path.join(outdir, f"{pid}-{digest([clause, sig])[:10]}-seed{r['seed']}.replay.json")
             with open(path, "w", encoding="utf-8") as f:
